@@ -364,6 +364,88 @@ def check_job(v, job, r, stats):
                     viol("variant-enum", "variant %s from %s resolved to %s which does not list it" % (vn, a, got["enum"]))
 
 
+def component_graphs_on_disk(v, rng, n):
+    """Class graphs made of QML component files: X.qml rooted in `Y {}` derives from Y.  Directories import each other by string in
+    several spellings of the same path (plain, through another directory and back, with ./ and a trailing slash), with diamonds and
+    cycles across directories.  'derives from' between any two components must be reachability along the root-type edges, whatever
+    spelling led to a directory."""
+    import os
+    wd = common.workdir("c17disk")
+    jobs, truth = [], {}
+    for k in range(n):
+        root = os.path.join(wd, "p%d" % k)
+        dirs = rng.sample(["app", "lib", "mid", "ui/forms", "ui/parts", "x y"], rng.randint(2, 5))
+        names = rng.sample(["Base", "Mid", "Leaf", "Panel", "Card", "Row", "Cell", "Box", "Knob"], rng.randint(3, 8))
+        home = {nm: rng.choice(dirs) for nm in names}
+        sup = {}
+        for i, nm in enumerate(names):
+            r = rng.random()
+            if i > 0 and r < 0.7:
+                sup[nm] = rng.choice(names[:i])              # acyclic edge (chains, trees; diamonds come from the imports)
+            elif r < 0.8 and len(names) > 1:
+                sup[nm] = rng.choice([x for x in names if x != nm])   # may close a cycle
+            else:
+                sup[nm] = None                                # rooted in a Qt class
+
+        def spell(frm, to):
+            rel = os.path.relpath(os.path.join(root, to), os.path.join(root, frm))
+            other = rng.choice([d for d in dirs if d != to] or [to])
+            detour = os.path.relpath(os.path.join(root, other), os.path.join(root, frm)) + "/" + os.path.relpath(os.path.join(root, to), os.path.join(root, other))
+            return rng.choice((rel, rel, "./" + rel, rel + "/", detour, detour))
+        for d in dirs:
+            os.makedirs(os.path.join(root, d), exist_ok=True)
+        for nm in names:
+            imports = set()
+            if sup[nm] and home[sup[nm]] != home[nm]:
+                imports.add(spell(home[nm], home[sup[nm]]))
+            for _ in range(rng.choice((0, 0, 1))):
+                d = rng.choice(dirs)
+                if d != home[nm]:
+                    imports.add(spell(home[nm], d))       # further imports: mutually importing directories
+            text = "import qmluic.QtWidgets\n" + "".join('import "%s"\n' % i for i in sorted(imports)) + "%s {}\n" % (sup[nm] or rng.choice(("QFrame", "QWidget", "QLabel")))
+            open(os.path.join(root, home[nm], nm + ".qml"), "w").write(text)
+        mdir = rng.choice(dirs)
+        main = "import qmluic.QtWidgets\n" + "".join('import "%s"\n' % spell(mdir, d) for d in dirs if d != mdir) + "QWidget {}\n"
+        open(os.path.join(root, mdir, "Main0.qml"), "w").write(main)
+        # ground truth: reachability along root-type edges (reflexive)
+        anc = {}
+        for nm in names:
+            seen, cur = [nm], sup[nm]
+            while cur is not None and cur not in seen:
+                seen.append(cur)
+                cur = sup[cur]
+            anc[nm] = set(seen)
+        qs = [(a, b) for a in names for b in names]
+        jobs.append({"id": "p%d" % k, "source": main, "path": os.path.join(root, mdir, "Main0.qml"), "modes": [], "want": [],
+                     "component_queries": [[os.path.join(root, home[a]), a, os.path.join(root, home[b]), b] for a, b in qs]})
+        truth["p%d" % k] = (qs, anc, {nm: (home[nm], sup[nm]) for nm in names}, root)
+    out = common.translate(jobs, tag="c17disk")
+    n_q = 0
+    for jid, (qs, anc, desc, root) in truth.items():
+        rs = out.results.get(jid)
+        if not rs:
+            v.inconc("no result for component project %s" % jid)
+            continue
+        r = rs[0]
+        files = {}
+        for dp, _, fns in os.walk(root):
+            for fn in fns:
+                files[os.path.relpath(os.path.join(dp, fn), root)] = open(os.path.join(dp, fn)).read()
+        if r.get("panic") or r.get("populate_error"):
+            v.violation("components:not-loaded", "component project is not loaded: %s" % (r.get("panic") or r.get("populate_error")), {"files": files})
+            continue
+        for (a, b), ans in zip(qs, r.get("component_answers", [])):
+            n_q += 1
+            exp = b in anc[a]
+            if ans.get("derived") is not exp:
+                v.violation("components:derived", "%s (%s/) derives from %s (%s/): %r, the files say %r" % (
+                    a, desc[a][0], b, desc[b][0], ans.get("derived", ans.get("error")), exp), {"files": files, "components": {k2: list(v2) for k2, v2 in desc.items()}})
+                break
+    for jid in out.cpu_violations:
+        v.violation("components:cpu-budget", "loading / querying a component project did not finish within the CPU budget", {"project": jid})
+    return n_q
+
+
 def run(tier, seed, replay=None):
     v = common.Verdict("C17", tier, seed)
     rng = common.rng_for(seed, "C17", tier)
@@ -423,8 +505,9 @@ def run(tier, seed, replay=None):
     v.assumptions = ["reference: breadth-first search over public super-class edges of the generated JSON description",
                      "termination restated as bounded progress: every query within %.0f s CPU (observed max %.2f ms)"
                      % (common.CPU_BUDGET_S, max_cpu)]
+    n_disk = 0 if replay else component_graphs_on_disk(v, rng, 40 if tier == "quick" else 600)
     return v.finish(
-        evaluations=queries, distinct_nontrivial=len(shapes),
+        component_file_queries=n_disk, evaluations=queries + n_disk, distinct_nontrivial=len(shapes),
         rule="random class graphs (chains, DAGs with multiple inheritance, diamonds, private edges, self loops, cycles, "
              "dangling / non-class super names); all subject pairs and all pool names queried; distinct = distinct edge "
              "relation with >= 3 classes and >= 1 edge",
